@@ -21,7 +21,11 @@ fn funnel(case: &GraphCase) -> Outcome {
     use crate::model::{mk_edge, mk_node, SpecBits, G};
     let mut out = Outcome::new();
     let (mg, mb) = (case.big_n as usize, case.big_seed as usize);
-    let n = 1 + mg + mg * mb;
+    // three sinks, each fed by one member: they reach nobody, so a search *into* the root that
+    // follows an edge of the wide member level forwards would pick them up
+    const SINKS: usize = 3;
+    let inner = 1 + mg + mg * mb;
+    let n = inner + SINKS;
     let name = |i: usize| format!("h{:06}", (i * 7919 + 13) % 1_000_003);
     let mut g = G::new(SpecBits::kind(true, false, false).to_specs());
     g.add_nodes((0..n).map(|i| mk_node(&name(i), None)).collect());
@@ -32,6 +36,10 @@ fn funnel(case: &GraphCase) -> Outcome {
             let member = 1 + mg + k * mb + j;
             g.add_edge(mk_edge(&name(member), &name(manager), f64::NAN)).expect("edge");
         }
+    }
+    for k in 0..SINKS {
+        let member = 1 + mg + (k % mg) * mb + k / mg;
+        g.add_edge(mk_edge(&name(member), &name(inner + k), f64::NAN)).expect("edge");
     }
     for wf in [true, false] {
         out.api_calls += 1;
@@ -45,10 +53,10 @@ fn funnel(case: &GraphCase) -> Outcome {
                     continue;
                 }
                 let scale = |reached: f64| if wf { reached / (n as f64 - 1.0) } else { 1.0 };
-                let root_reached = (n - 1) as f64;
+                let root_reached = (inner - 1) as f64;
                 let root = root_reached / (mg as f64 + 2.0 * (mg * mb) as f64) * scale(root_reached);
                 let manager = (mb as f64 / mb as f64) * scale(mb as f64);
-                for (i, want) in [(0usize, root), (1, manager), (mg, manager), (1 + mg, 0.0), (n - 1, 0.0)] {
+                for (i, want) in [(0usize, root), (1, manager), (mg, manager), (1 + mg, 0.0), (inner - 1, 0.0), (inner, scale(1.0)), (n - 1, scale(1.0))] {
                     let got = m.get(&name(i)).copied().unwrap_or(f64::NAN);
                     if !approx(got, want, 1e-12, 1e-15) {
                         out.fail(format!("{}/ne_definition/hierarchy", ctx), format!("hierarchy of {} nodes ({} managers x {} members): node {} has {} instead of {}", n, mg, mb, i, got, want));
@@ -57,7 +65,7 @@ fn funnel(case: &GraphCase) -> Outcome {
                 }
                 // every manager has the same value, every member 0
                 let bad = (1..n).find(|i| {
-                    let want = if *i <= mg { manager } else { 0.0 };
+                    let want = if *i <= mg { manager } else if *i < inner { 0.0 } else { scale(1.0) };
                     !approx(m.get(&name(*i)).copied().unwrap_or(f64::NAN), want, 1e-12, 1e-15)
                 });
                 if let Some(i) = bad {
@@ -80,7 +88,7 @@ impl Prop for C06 {
         "C06"
     }
     fn rule(&self) -> String {
-        "graphs of all 8 kinds, n in 0..=10 and 21..=34 (parallel path), shapes / shuffled insertion order as C04, unweighted / positive dyadic / tie-rich weights; each graph is evaluated for weighted x wf_improved, and (weighted single-edge graphs) once more after an existing edge was replaced by a heavier one under KeepLast between two calls. Oracle: Floyd-Warshall over the cheapest parallel edge; for u, R = nodes with finite distance TO u (incoming on directed graphs), value (|R|-1)/sum d(v,u), times (|R|-1)/(n-1) with wf_improved, 0 when |R| = 1; tolerance 1e-12 relative (dyadic sums are exact). Exhaustive block: all graphs on <= 3 nodes of the single-edge kinds. Non-trivial = a directed graph where some node's incoming and outgoing distance sums differ, or a disconnected graph evaluated with wf_improved; distinct = distinct serialised case. Name-type independence: for every graph of <= 12 nodes and one in eight up to 64 (34 for path-returning calls) the same calls are repeated with a user-defined node-name type (lossy Display, heavily colliding Hash, Ord unrelated to insertion order) and must give the same order-independent results as with String names (floats within 1e-9). Each call runs in the ambient 16-thread pool or, selected by the case, inside a shared rayon pool of 1, 3, 24 or 64 threads (more threads than nodes for the 21..=60-node class). Exhaustive block also holds two directed hierarchies of 66 051 and 75 301 nodes (managers pointing to a root, members to managers) whose closeness has a closed form.".into()
+        "graphs of all 8 kinds, n in 0..=10 and 21..=34 (parallel path), shapes / shuffled insertion order as C04, unweighted / positive dyadic / tie-rich weights; each graph is evaluated for weighted x wf_improved, and (weighted single-edge graphs) once more after an existing edge was replaced by a heavier one under KeepLast between two calls. Oracle: Floyd-Warshall over the cheapest parallel edge; for u, R = nodes with finite distance TO u (incoming on directed graphs), value (|R|-1)/sum d(v,u), times (|R|-1)/(n-1) with wf_improved, 0 when |R| = 1; tolerance 1e-12 relative (dyadic sums are exact). Exhaustive block: all graphs on <= 3 nodes of the single-edge kinds. Non-trivial = a directed graph where some node's incoming and outgoing distance sums differ, or a disconnected graph evaluated with wf_improved; distinct = distinct serialised case. Name-type independence: for every graph of <= 12 nodes and one in eight up to 64 (34 for path-returning calls) the same calls are repeated with a user-defined node-name type (lossy Display, heavily colliding Hash, Ord unrelated to insertion order) and must give the same order-independent results as with String names (floats within 1e-9). Each call runs in the ambient 16-thread pool or, selected by the case, inside a shared rayon pool of 1, 3, 24 or 64 threads (more threads than nodes for the 21..=60-node class). Exhaustive block also holds two directed hierarchies of 66 051 and 75 301 nodes (managers pointing to a root, members to managers) whose closeness has a closed form. Round 10: the two hierarchies carry three sinks, each fed by one member of the wide level (they reach nobody; the root's reach and distance sum must not include them, their own closeness is that of one node at distance 1).".into()
     }
     fn assumptions(&self) -> Vec<String> {
         vec!["positive weights".into()]
